@@ -9,6 +9,7 @@ import TsVerif.C17.Locals
 import TsVerif.C17.FullLemmas
 import TsVerif.C17.StackThm
 import TsVerif.C17.SortOrder
+import TsVerif.C17.MultiOrder
 /-!
 # C17 — Highlight events are well nested and reproduce the source text exactly
 
@@ -32,6 +33,7 @@ Clause map (models: `TsVerif/C17/Model.lean`, `Merge.lean`; judges: `Judge.lean`
 | Source spans contiguous/increasing/covering, Start/End nested and closed | `merge_wellformed_partial` (model of the merge of ONE layer: `highlight_end_stack`, `emit_event`, `next_event`; tied by correspondence); `merge_multi_wellformed` (several layers: `sort_key`, `sort_layers`, `insert_layer`, `last_highlight_range`; no locals branch; the run provably finishes when injections refer to later layers of the table — `refsUp`, checked on every real case), `merge_multi_wellformed_partial` (any layer table, if the run finishes); both models tied by correspondence | proved for the models, judged on every real stream |
 | each End closes the highlight of the capture that ends there (scope stack = captures containing the byte) | `merge_stack_spec_partial` (single-layer merge, captures in nesting order: over every Source span the stack of open highlights IS the list of highlights of the containing captures, innermost first); several layers: judged on every applicable real stream (`judgeStacks`), theorem OPEN | proved for one layer, judged |
 | events in offset order across layers (ends before starts at one offset, deeper layers first) | `sort_key_order` (strict total order), `sort_layers_restores_order`, `insert_layer_keeps_order`, `merge_layers_stay_ordered_partial` (every iteration leaves the layer list ordered by `sort_key`, so the head has the minimal key) — hypothesis: the INITIAL list is ordered; FALSE for the unchanged `Highlighter::highlight` with two combined-injection layers (`initial_layers_unordered_witness`; fix `fixes/C17-initial-layer-order.diff`) | proved / witness |
+| no event is late in the multi-layer merge (each Start at its capture's start, each End at its capture's end) | `initial_layers_ordered`, `merge_layers_stay_ordered` (UNCONDITIONAL for the repaired set-up), `merge_events_in_place` (byte offset ≤ every pending boundary of every layer in every reachable state, under `DefsNice`) | proved for the repaired multi-layer model |
 | injected spans inside the content | `intersect_ranges_spec`, `injected_content_inside` (port of `intersect_ranges`: every content range is non-empty, inside a range of the parent layer, inside a content node and — unless include-children — clear of the node's children); that a layer's SPANS start inside its included ranges is a property of parsing with included ranges (C13), judged on every real stream by `judgeInjected` | ranges proved, spans judged |
 | local reference like definition | `local_ref_like_def`, `findDef_newest` (port of the locals branch for one layer, `Locals.lean`, tied by correspondence on layers with a locals query): a reference whose enclosing scopes up to the defining one all inherit and do not define the name takes the highlight stored for the newest admissible definition; also judged on every real stream (`judgeLocals`) | proved for the one-layer model, judged |
 
@@ -283,6 +285,12 @@ example : capsOk 5 [⟨0, 3, some 1⟩, ⟨2, 5, some 2⟩] = false ∧
 
 /-! ## Order of the layers -/
 
+/-- (same data as `unorderedInit` below) -/
+def unorderedInitR : List LayerDef := [
+  ⟨0, [⟨0, 8, 1, .hl (some 1)⟩, ⟨8, 16, 2, .hl (some 2)⟩]⟩,
+  ⟨1, [⟨9, 14, 3, .hl (some 3)⟩]⟩,
+  ⟨1, [⟨4, 5, 4, .hl (some 4)⟩]⟩]
+
 /-- `sort_key`'s order — offset, then ends before starts, then deeper layers first — is a strict total
 order. -/
 theorem sort_key_order (a b c : Key) :
@@ -307,6 +315,53 @@ was ordered before.  `_partial`: the hypothesis fails initially for the unchange
 theorem merge_layers_stay_ordered_partial (defs : List LayerDef) (n : Nat) (st st' : MSt) (evs : List Ev)
     (hs : Sorted st.layers) (h : stepM defs n st = .more evs st') : Sorted st'.layers :=
   stepM_keeps_sorted defs n st st' evs hs h
+
+/-- The repaired `Highlighter::highlight` set-up (first layer, `insert_layer` for the others,
+`sort_layers`; `fixes/C17-initial-layer-order.diff`, committed) yields an ordered layer list —
+for ANY layers in ANY creation order. -/
+theorem initial_layers_ordered (defs : List LayerDef) (top : List Nat) : Sorted (initLayersR defs top) :=
+  initLayersR_sorted defs top
+
+/-- UNCONDITIONAL for the repaired model: every state the loop reaches has a layer list ordered by
+`sort_key` — so the event handled next always has the earliest offset, an end before a start at one
+offset, the deeper layer first.  (For the unchanged set-up this fails: `initial_layers_unordered_witness`.) -/
+theorem merge_layers_stay_ordered (defs : List LayerDef) (top : List Nat) (n k : Nat) (st' : MSt)
+    (h : iterM defs n k { layers := initLayersR defs top } = some st') : Sorted st'.layers :=
+  iterM_sorted defs n k _ st' (initLayersR_sorted defs top) h
+
+/-- In the repaired multi-layer model NO EVENT IS LATE: if every layer's captures are in start
+order, nested or disjoint, in nesting order, and the layers an injection creates only have captures
+at or after the injecting capture (`DefsNice`), then in every state the loop reaches the layer list
+is ordered by `sort_key`, every layer's end stack is sorted, and the byte offset is at most the start
+of EVERY remaining capture and at most EVERY open end of EVERY layer.  So `emit_event` never finds
+`byte_offset > offset`: each `HighlightStart` is emitted exactly at its capture's start, each
+`HighlightEnd` exactly at its capture's end (what the unordered initial layers of the unrepaired code
+violated: `initial_layers_unordered_witness` emits highlight 4 of the capture 4..5 at offset 9).
+This is the ordering half of the multi-layer scope-stack statement; the stack half is OPEN. -/
+theorem merge_events_in_place (defs : List LayerDef) (hn : DefsNice defs) (top : List Nat) (n k : Nat) (st' : MSt)
+    (h : iterM defs n k { layers := initLayersR defs top } = some st') :
+    Sorted st'.layers ∧
+    ∀ l ∈ st'.layers, (∀ c ∈ l.caps, st'.off ≤ c.s) ∧ (∀ eb ∈ l.ends, st'.off ≤ eb) ∧ l.ends.Pairwise (· ≤ ·) := by
+  obtain ⟨h1, h2⟩ := init_oinv defs hn top
+  obtain ⟨ho, _⟩ := iterM_oinv defs hn n k _ st' h1 h2 h
+  exact ⟨ho.sorted, fun l hl => ⟨(ho.linv l hl).capsGe, (ho.linv l hl).endsGe, (ho.linv l hl).endsSorted⟩⟩
+
+/-- non-vacuity: the three-layer data satisfies `DefsNice` -/
+example : DefsNice unorderedInitR := by
+  refine ⟨by decide, ?_⟩
+  intro d hd c hc ids hk
+  simp only [unorderedInitR, List.mem_cons, List.not_mem_nil, or_false] at hd
+  rcases hd with rfl | rfl | rfl <;> simp only [List.mem_cons, List.not_mem_nil, or_false] at hc
+  · rcases hc with rfl | rfl <;> simp at hk
+  · subst hc; simp at hk
+  · subst hc; simp at hk
+
+/-- the three layers of the old-code witness, through the repaired set-up: now ordered, and highlight 4
+is opened and closed in place (4..5) -/
+example : (initLayersR unorderedInitR [0, 1, 2]).map sortKey = [some (0, true, 0), some (4, true, 1), some (9, true, 1)] ∧
+    (mergeLayersR unorderedInitR [0, 1, 2] 16).1 =
+      [.start 1, .source 0 4, .start 4, .source 4 5, .stop, .source 5 8, .stop, .start 2, .source 8 9, .start 3,
+       .source 9 14, .stop, .source 14 16, .stop] := by decide
 
 /-- non-vacuity: an ordered list of three layers (end at 4 before start at 4, deeper first) -/
 example : Sorted [⟨2, [], [4]⟩, ⟨1, [], [4]⟩, ⟨1, [⟨4, 6, 1, .hl (some 1)⟩], []⟩] := by
